@@ -181,7 +181,15 @@ func (fc *FnCtx) unsup(format string, a ...interface{}) {
 	fc.unsupported = append(fc.unsupported, fmt.Sprintf(format, a...))
 }
 
+var panicKinds = map[string]bool{"bounds": true, "nil": true, "div": true, "tassert": true, "unreach": true, "shift": true, "alloc": true, "mapinv": true}
+
 func (fc *FnCtx) oblige(kind, label, cond string, pos token.Pos, cl *Clause) *Obligation {
+	if (panicKinds[kind] || kind == "pre") && fc.con != nil && fc.con.Opts["no-safety"] != "" {
+		// absence of panics is not claimed for this function here (it is assumed): only the frame /
+		// postcondition obligations are generated
+		fc.assert(implies(fc.curReach, cond))
+		return &Obligation{Fn: fc.name, Name: fc.name + "#" + kind, Kind: kind, Status: "skipped", fc: fc}
+	}
 	base := fc.name + "#" + kind
 	if label != "" {
 		base += "." + label
